@@ -125,6 +125,8 @@ fn to_v1(img: &[u8]) -> V1 {
 struct Be {
     fs: ScriptedFs,
     ord: u64,
+    /// this instance fails its init() (a property of the backend, configured by the scenario)
+    refuse_init: bool,
 }
 
 struct World {
@@ -246,7 +248,7 @@ impl World {
         let n = self.ords.len() as u64 + 1;
         let ord = *self.ords.entry(id.to_string()).or_insert(n);
         let key = format!("{id}#{}", self.bes.len());
-        self.bes.insert(key.clone(), Be { fs: ScriptedFs::new(id), ord });
+        self.bes.insert(key.clone(), Be { fs: ScriptedFs::new(id), ord, refuse_init: false });
         key
     }
 
@@ -341,7 +343,10 @@ impl World {
         let rg = step["rgid"].as_u64().unwrap_or(0) as u32 * sc;
         let maxino = step["maxino"].as_str().map(|s| s.parse::<u64>().unwrap()).unwrap_or(MAX_INO);
         *fs.root.lock().unwrap() = (mkentry(root_ino, ru, rg, libc::S_IFDIR | 0o755), maxino);
-        fs.set(Ret::Unit); // init() of the backend answers from the script: not an error left by a request
+        // init() of the backend answers from the script: Ok unless the scenario says that this backend refuses
+        let init_fail = step["init_fail"].as_bool().unwrap_or(false);
+        self.bes.get_mut(&key).unwrap().refuse_init = init_fail;
+        fs.set(if init_fail { Ret::Err { os: libc::EIO, kind: None } } else { Ret::Unit });
         self.drain_logs();
         let vfs = self.vfs.clone();
         let boxed = Box::new(fs.clone());
@@ -357,7 +362,7 @@ impl World {
         let comps: Vec<&str> = path.split('/').collect();
         let mut ev = json!({"e": "Mount", "k": self.k, "path": path, "comps": comps, "abs": path.starts_with('/'), "backend": bid,
             "some": some, "map": mapj(map), "root": {"low": (root_ino & MAX_INO).to_string(), "uid": idj(ru), "gid": idj(rg)},
-            "backend_ok": maxino <= MAX_INO, "calls": calls});
+            "backend_ok": maxino <= MAX_INO, "init_ok": !init_fail, "calls": calls});
         match res {
             Ok(Ok(idx)) => {
                 ev["ret"] = json!("ok");
@@ -498,8 +503,10 @@ impl World {
         let mut bytes = self.header(op, 0, 0, 0, body.len());
         bytes.extend_from_slice(&body);
         for (_, be) in self.bes.iter() {
-            be.fs.set(Ret::Init(u64::MAX));
+            be.fs.set(if be.refuse_init { Ret::Err { os: libc::EIO, kind: None } } else { Ret::Init(u64::MAX) });
         }
+        // does a currently mounted backend refuse its init()? (the harness's own configuration)
+        let refuses = self.mounts.values().any(|(key, _, _)| self.bes[key].refuse_init);
         self.drain_logs();
         let (ret, msg) = self.xfer(&bytes);
         // one entry per distinct (backend, capable) with the number of init calls
@@ -510,7 +517,7 @@ impl World {
             }
         }
         let calls: Vec<Value> = sum.iter().map(|((b, c), n)| json!({"backend": b, "capable": c, "n": n})).collect();
-        let mut ev = json!({"e": "Init", "k": self.k, "empty": empty, "zmo": zmo && !empty, "zmod": zmod && !empty, "ret": ret, "calls": calls, "status": -1, "opts": ""});
+        let mut ev = json!({"e": "Init", "k": self.k, "empty": empty, "zmo": zmo && !empty, "zmod": zmod && !empty, "ret": ret, "calls": calls, "status": -1, "opts": "", "backend_refuses": refuses});
         if let Some(m) = msg {
             if m.len() >= 16 {
                 let err = i32::from_le_bytes(m[4..8].try_into().unwrap());
@@ -1206,6 +1213,9 @@ fn gen(seed: u64, nsc: usize, nmounts: usize, shape: &str, out: &str) {
                 let ruid = pick_id(&mut rng, &[m, g]);
                 let rgid = pick_id(&mut rng, &[m, g]);
                 let mut st = json!({"op": "mount", "path": p, "b": b, "m": mjo(mo), "ruid": ruid, "rgid": rgid, "root": (rng.range(1, 1 << 40)).to_string()});
+                if shape != "fill" && rng.chance(1, 8) {
+                    st["init_fail"] = json!(true);      // a backend whose init() fails (refused once the VFS is negotiated)
+                }
                 if rng.chance(1, 40) && !(shape == "fill" && nm < 258) {
                     st["maxino"] = json!((MAX_INO + 1).to_string());
                 }
